@@ -623,4 +623,289 @@ theorem ext_highClosed {h h' : Heap} {A B : Prop} (e : Ext h.length h h' A B) (h
   obtain ⟨e', hm, hy⟩ := succs_append_high hc hb
   exact (a ha e' hm b hy).1
 
+
+/-! ### actions that stay above a watermark never touch the cells below it
+
+  Used for the shallow adoption `Grid(ds)`: the grid's own Dataset / Variable / attrs cells are
+  allocated above the caller's objects; only array buffers are shared (zero-copy). -/
+
+theorem length_applyAct_ge (h : Heap) (r : Nat) (act : Act) : h.length ≤ (applyAct h r act).length := by
+  cases act <;> simp only [applyAct] <;> (repeat' split) <;> simp [upd]
+
+theorem applyAct_low {h : Heap} {r n0 : Nat} (hn : n0 ≤ h.length) (act : Act)
+    (ht : ∀ t, actTarget h r act = some t → n0 ≤ t) :
+    ∀ a, a < n0 → (applyAct h r act)[a]? = h[a]? := by
+  intro a ha
+  have key : ∀ (t : Nat) (c' : Cell) (ext : List Cell), n0 ≤ t → (upd h t c' ext)[a]? = h[a]? :=
+    fun t c' ext hge => getElem?_upd_low (by omega) (by omega)
+  cases act with
+  | write p d =>
+    simp only [actTarget] at ht
+    simp only [applyAct]
+    split
+    · next t hf => split
+                   · exact key _ _ _ (ht t hf)
+                   · rfl
+    · rfl
+  | unlink p k =>
+    simp only [actTarget] at ht
+    simp only [applyAct]
+    split
+    · next t hf => split
+                   · exact key _ _ _ (ht t hf)
+                   · rfl
+    · rfl
+  | link p k q =>
+    simp only [actTarget] at ht
+    simp only [applyAct]
+    split
+    · next t b hf _ => split
+                       · exact key _ _ _ (ht t hf)
+                       · rfl
+    · rfl
+  | fresh p k d kids =>
+    simp only [actTarget] at ht
+    simp only [applyAct]
+    split
+    · next t hf => split
+                   · exact key _ _ _ (ht t hf)
+                   · rfl
+    · rfl
+
+/-- **any history whose actions all modify cells at or above `n0`** leaves every cell below `n0` as it was -/
+theorem runActs_lowSame {r n0 : Nat} : ∀ (acts : List Act) {h : Heap}, n0 ≤ h.length →
+    HighTargets n0 r h acts → ∀ a, a < n0 → (runActs h r acts)[a]? = h[a]?
+  | [], _, _, _, _, _ => rfl
+  | act :: acts, h, hn, ht, a, ha => by
+    have h1 := applyAct_low hn act ht.1 a ha
+    have h2 := runActs_lowSame acts (Nat.le_trans hn (length_applyAct_ge h r act)) ht.2 a ha
+    simp only [runActs, List.foldl_cons] at h2 ⊢
+    rw [h2, h1]
+
+theorem highTargetsB_sound {r n0 : Nat} : ∀ (acts : List Act) {h : Heap},
+    highTargetsB n0 r h acts = true → HighTargets n0 r h acts
+  | [], _, _ => trivial
+  | act :: acts, h, e => by
+    simp only [highTargetsB, Bool.and_eq_true] at e
+    refine ⟨?_, highTargetsB_sound acts e.2⟩
+    intro t ht
+    rw [ht] at e
+    exact of_decide_eq_true e.1
+
+
+/-! ### clean actions: never through a data reference -/
+
+theorem follow_clean_high {n0 : Nat} {h : Heap} (Q : DataOnlyLow n0 h) :
+    ∀ {p : Path} {a t : Nat}, n0 ≤ a → cleanPath p → follow h a p = some t → n0 ≤ t
+  | [], a, t, ha, _, e => by simp [follow] at e; omega
+  | k :: p, a, t, ha, cl, e => by
+    unfold follow at e
+    cases hf : field h a k with
+    | none => simp [hf] at e
+    | some b =>
+      simp only [hf] at e
+      have hb : n0 ≤ b := by
+        unfold field at hf
+        cases hc : h[a]? with
+        | none => simp [hc] at hf
+        | some c =>
+          simp only [hc] at hf
+          exact Q a c ha hc (k, b) (look_mem hf) (cl k (by simp))
+      exact follow_clean_high Q hb (fun k' hk' => cl k' (List.mem_cons_of_mem _ hk')) e
+
+theorem resolveKids_mem {h : Heap} {r : Nat} :
+    ∀ {kids : List (Nat × Path)} {p : Nat × Nat}, p ∈ resolveKids h r kids →
+      ∃ q, (p.1, q) ∈ kids ∧ follow h r q = some p.2
+  | [], p, hp => by simp [resolveKids] at hp
+  | (k, q) :: l, p, hp => by
+    unfold resolveKids at hp
+    cases hf : follow h r q with
+    | none =>
+      simp only [hf] at hp
+      obtain ⟨q', hm, e⟩ := resolveKids_mem hp
+      exact ⟨q', List.mem_cons_of_mem _ hm, e⟩
+    | some b =>
+      simp only [hf, List.mem_cons] at hp
+      rcases hp with rfl | hp
+      · exact ⟨q, by simp, hf⟩
+      · obtain ⟨q', hm, e⟩ := resolveKids_mem hp
+        exact ⟨q', List.mem_cons_of_mem _ hm, e⟩
+
+theorem dataOnlyLow_upd {n0 t : Nat} {h : Heap} {c c' : Cell} {ext : List Cell} (Q : DataOnlyLow n0 h)
+    (hc : h[t]? = some c) (h1 : ∀ p ∈ c'.refs, p.1 ≠ kData → n0 ≤ p.2)
+    (h2 : ∀ e ∈ ext, ∀ p ∈ e.refs, p.1 ≠ kData → n0 ≤ p.2) : DataOnlyLow n0 (upd h t c' ext) := by
+  have ht : t < h.length := (List.getElem?_eq_some_iff.mp hc).1
+  intro a ca ha hca p hp hk
+  by_cases hl : a < h.length
+  · by_cases hat : a = t
+    · subst hat
+      rw [getElem?_upd_at ht] at hca
+      cases hca
+      exact h1 p hp hk
+    · rw [getElem?_upd_low hl hat] at hca
+      exact Q a ca ha hca p hp hk
+  · rw [getElem?_upd_high (Nat.le_of_not_lt hl)] at hca
+    exact h2 ca (List.mem_of_getElem? hca) p hp hk
+
+/-- a clean action of an object rooted at or above `n0` modifies a cell at or above `n0` and keeps
+    the "only data references point below" shape -/
+theorem cleanAct_preserves {n0 r : Nat} {h : Heap} (Q : DataOnlyLow n0 h) (hr : n0 ≤ r)
+    (act : Act) (cl : CleanAct act) :
+    (∀ t, actTarget h r act = some t → n0 ≤ t) ∧ DataOnlyLow n0 (applyAct h r act) := by
+  cases act with
+  | write p d =>
+    have tg : ∀ t, follow h r p = some t → n0 ≤ t := fun t e => follow_clean_high Q hr cl e
+    refine ⟨tg, ?_⟩
+    cases hf : follow h r p with
+    | none => simpa only [applyAct, hf] using Q
+    | some t =>
+      cases hc : h[t]? with
+      | none => simpa only [applyAct, hf, hc] using Q
+      | some c =>
+        simp only [applyAct, hf, hc]
+        exact dataOnlyLow_upd Q hc (fun p hp hk => Q t c (tg t hf) hc p hp hk) (by intro e he; simp at he)
+  | unlink p k =>
+    have tg : ∀ t, follow h r p = some t → n0 ≤ t := fun t e => follow_clean_high Q hr cl e
+    refine ⟨tg, ?_⟩
+    cases hf : follow h r p with
+    | none => simpa only [applyAct, hf] using Q
+    | some t =>
+      cases hc : h[t]? with
+      | none => simpa only [applyAct, hf, hc] using Q
+      | some c =>
+        simp only [applyAct, hf, hc]
+        refine dataOnlyLow_upd Q hc ?_ (by intro e he; simp at he)
+        intro p hp hk
+        exact Q t c (tg t hf) hc p (List.mem_filter.mp hp).1 hk
+  | link p k q =>
+    have tg : ∀ t, follow h r p = some t → n0 ≤ t := fun t e => follow_clean_high Q hr cl.1 e
+    refine ⟨tg, ?_⟩
+    cases hf : follow h r p with
+    | none => simpa only [applyAct, hf] using Q
+    | some t =>
+      cases hg : follow h r q with
+      | none => simpa only [applyAct, hf, hg] using Q
+      | some b =>
+        cases hc : h[t]? with
+        | none => simpa only [applyAct, hf, hg, hc] using Q
+        | some c =>
+          simp only [applyAct, hf, hg, hc]
+          refine dataOnlyLow_upd Q hc ?_ (by intro e he; simp at he)
+          intro p hp hk
+          simp only [setRef, List.mem_cons] at hp
+          rcases hp with rfl | hp
+          · exact follow_clean_high Q hr (cl.2 hk) hg
+          · exact Q t c (tg t hf) hc p (List.mem_filter.mp hp).1 hk
+  | fresh p k d kids =>
+    have tg : ∀ t, follow h r p = some t → n0 ≤ t := fun t e => follow_clean_high Q hr cl.1 e
+    refine ⟨tg, ?_⟩
+    cases hf : follow h r p with
+    | none => simpa only [applyAct, hf] using Q
+    | some t =>
+      cases hc : h[t]? with
+      | none => simpa only [applyAct, hf, hc] using Q
+      | some c =>
+        simp only [applyAct, hf, hc]
+        have ht : t < h.length := (List.getElem?_eq_some_iff.mp hc).1
+        refine dataOnlyLow_upd Q hc ?_ ?_
+        · intro p hp hk
+          simp only [setRef, List.mem_cons] at hp
+          rcases hp with rfl | hp
+          · have := tg t hf; simp only []; omega
+          · exact Q t c (tg t hf) hc p (List.mem_filter.mp hp).1 hk
+        · intro e he p hp hk
+          simp only [List.mem_singleton] at he
+          subst he
+          obtain ⟨q, hm, e⟩ := resolveKids_mem hp
+          exact follow_clean_high Q hr (cl.2 (p.1, q) hm hk) e
+
+/-- **any history of clean actions** modifies only cells at or above `n0` -/
+theorem runActs_clean {n0 r : Nat} (hr : n0 ≤ r) : ∀ (acts : List Act) {h : Heap}, DataOnlyLow n0 h →
+    (∀ a ∈ acts, CleanAct a) → HighTargets n0 r h acts ∧ DataOnlyLow n0 (runActs h r acts)
+  | [], _, Q, _ => ⟨trivial, Q⟩
+  | act :: acts, h, Q, cl => by
+    obtain ⟨t1, Q1⟩ := cleanAct_preserves Q hr act (cl act (by simp))
+    obtain ⟨t2, Q2⟩ := runActs_clean hr acts Q1 (fun a ha => cl a (List.mem_cons_of_mem _ ha))
+    exact ⟨⟨t1, t2⟩, by simpa only [runActs, List.foldl_cons] using Q2⟩
+
+/-! ### the freshly allocated grid refers below only through data references -/
+
+def RefsOK (n0 : Nat) (ext : List Cell) : Prop := ∀ e ∈ ext, ∀ p ∈ e.refs, p.1 ≠ kData → n0 ≤ p.2
+
+theorem refsOK_append {n0 : Nat} {a b : List Cell} (ha : RefsOK n0 a) (hb : RefsOK n0 b) : RefsOK n0 (a ++ b) := by
+  intro e he
+  rcases List.mem_append.mp he with h | h
+  · exact ha e h
+  · exact hb e h
+
+theorem allocVar_refsOK (n0 : Nat) (h : Heap) (v : VarSpec) (hn : n0 ≤ h.length) :
+    ∃ ext, (allocVar h v).1 = h ++ ext ∧ RefsOK n0 ext := by
+  unfold allocVar
+  cases v.alias with
+  | some b =>
+    refine ⟨_, rfl, ?_⟩
+    intro e he p hp hk
+    simp only [List.mem_cons, List.not_mem_nil, or_false] at he
+    rcases he with rfl | rfl
+    · simp at hp
+    · simp only [List.mem_cons, List.not_mem_nil, or_false] at hp
+      rcases hp with rfl | rfl
+      · simp only []; omega
+      · exact absurd rfl hk
+  | none =>
+    refine ⟨_, rfl, ?_⟩
+    intro e he p hp hk
+    simp only [List.mem_cons, List.not_mem_nil, or_false] at he
+    rcases he with rfl | rfl | rfl
+    · simp at hp
+    · simp at hp
+    · simp only [List.mem_cons, List.not_mem_nil, or_false] at hp
+      rcases hp with rfl | rfl
+      · simp only []; omega
+      · exact absurd rfl hk
+
+theorem allocVars_refsOK (n0 : Nat) : ∀ (vs : List VarSpec) (h : Heap), n0 ≤ h.length →
+    ∃ ext, (allocVars h vs).1 = h ++ ext ∧ RefsOK n0 ext
+  | [], h, _ => ⟨[], by simp [allocVars], by intro e he; simp at he⟩
+  | v :: vs, h, hn => by
+    obtain ⟨x1, e1, r1⟩ := allocVar_refsOK n0 h v hn
+    obtain ⟨x2, e2, r2⟩ := allocVars_refsOK n0 vs (allocVar h v).1 (by rw [e1]; simp; omega)
+    refine ⟨x1 ++ x2, ?_, refsOK_append r1 r2⟩
+    simp only [allocVars]
+    rw [e2, e1, List.append_assoc]
+
+theorem allocGrid_refsOK (h : Heap) (vs : List VarSpec) (attrs spec : List Int) :
+    ∃ ext, (allocGrid h vs attrs spec).1 = h ++ ext ∧ RefsOK h.length ext := by
+  obtain ⟨x, e, r⟩ := allocVars_refsOK h.length vs h (Nat.le_refl _)
+  obtain ⟨_, q⟩ := allocVars_spec h.length vs h (Nat.le_refl _)
+  refine ⟨x ++ [⟨attrs, []⟩, ⟨[], (kAttrs, (allocVars h vs).1.length) :: (allocVars h vs).2⟩] ++
+    [⟨[], []⟩, ⟨spec, [(kDs, (allocVars h vs).1.length + 1), (kDims, (allocVars h vs).1.length + 2)]⟩], ?_, ?_⟩
+  · simp only [allocGrid, allocDs]
+    rw [e]
+    simp [List.append_assoc]
+    omega
+  · have hl : h.length ≤ (allocVars h vs).1.length := by rw [e]; simp
+    refine refsOK_append (refsOK_append r ?_) ?_
+    · intro c hc p hp _
+      simp only [List.mem_cons, List.not_mem_nil, or_false] at hc
+      rcases hc with rfl | rfl
+      · simp at hp
+      · simp only [List.mem_cons] at hp
+        rcases hp with rfl | hp
+        · exact hl
+        · exact (q p hp).1
+    · intro c hc p hp _
+      simp only [List.mem_cons, List.not_mem_nil, or_false] at hc
+      rcases hc with rfl | rfl
+      · simp at hp
+      · simp only [List.mem_cons, List.not_mem_nil, or_false] at hp
+        rcases hp with rfl | rfl <;> (simp only []; omega)
+
+theorem allocGrid_dataOnlyLow (h : Heap) (vs : List VarSpec) (attrs spec : List Int) :
+    DataOnlyLow h.length (allocGrid h vs attrs spec).1 := by
+  obtain ⟨ext, e, r⟩ := allocGrid_refsOK h vs attrs spec
+  intro a c ha hc p hp hk
+  rw [e, List.getElem?_append_right ha] at hc
+  exact r c (List.mem_of_getElem? hc) p hp hk
+
 end UxVerif.Heap
